@@ -11,6 +11,27 @@ from . import core, inter
 PROBE = os.path.join(os.path.dirname(os.path.dirname(os.path.abspath(__file__))), "probe", "probe.py")
 
 
+def respell_argv(flags, vec, rng):
+    """the same command line in another of argparse's spellings: clustered short options, attached values, long options,
+    unambiguous abbreviations of long options, repeated flags"""
+    k = rng.random()
+    if k < 0.5:
+        return flags + ["-v", vec]
+    long_ = {"-a": "--all", "-n": "--no-colors", "-j": "--json"}
+    if k < 0.62:      # clustered short flags, value separate
+        cl = "".join(f[1] for f in flags)
+        return (["-" + cl] if cl else []) + ["-v", vec]
+    if k < 0.72:      # clustered with -v last and the value attached / separate
+        cl = "".join(f[1] for f in flags)
+        return ["-" + cl + "v" + vec] if rng.random() < 0.5 else ["-" + cl + "v", vec]
+    if k < 0.82:      # long options
+        return [long_.get(f, f) for f in flags] + (["--vector", vec] if rng.random() < 0.5 else ["--vector=" + vec])
+    if k < 0.92:      # abbreviated long options
+        ab = {"-a": rng.choice(["--al", "--a"]), "-n": rng.choice(["--no", "--no-c", "--n"]), "-j": rng.choice(["--js", "--j"])}
+        return [ab.get(f, f) for f in flags] + [rng.choice(["--vec", "--v", "--vect"]), vec]
+    return flags + flags[:1] + ["-v", vec]      # a flag given twice
+
+
 def gen_ops(rng, n, cli=True):
     ops = []
     for _ in range(n):
@@ -23,7 +44,12 @@ def gen_ops(rng, n, cli=True):
             ops.append(["C", rng.choice("234"), core.edit(s, rng, ver)])
         elif k < 0.7:
             o = core.impl().cls[ver](s)
-            txt = rng.choice([o.rh_vector(), "9.9/" + s, "x/" + s, s, " %.1f /%s" % (o.scores()[0], s), "%.2f/%s" % (o.scores()[0], s)])
+            b = o.scores()[0]
+            txt = rng.choice([o.rh_vector(), "9.9/" + s, "x/" + s, s, " %.1f /%s" % (b, s), "%.2f/%s" % (b, s),
+                              # near misses and extreme spellings of the score text (tolerances, Decimal vs float, huge exponents)
+                              "%.1f0000000050/%s" % (b, s), "%.1f00000000050/%s" % (b, s), "%.1f000000001/%s" % (b, s), "%r/%s" % (b + 1e-9, s),
+                              "%r/%s" % (b * (1 + 5e-10) if b else 1e-10, s), "%.1f000000000000000000000001/%s" % (b, s),
+                              "1e-400/" + s, "1e99999999999999999999/" + s, "%.1fe0000000000000000000000/%s" % (b, s), "%de-1/%s" % (int(round(b * 10)), s)])
             ops.append(["R", ver, txt])
         elif k < 0.8:
             from .props import c13
@@ -42,7 +68,7 @@ def gen_ops(rng, n, cli=True):
                     vec = core.edit(vec, rng, v)
                 if vec.startswith("-"):
                     vec = "x" + vec
-                ops.append(["L", flags + ["-v", vec], []])
+                ops.append(["L", respell_argv(flags, vec, rng), []])
             else:
                 vs = [f for f in "234" if "-" + f in flags]
                 iver = {"2": "2", "3": "3.0", "4": "4"}[vs[0]] if vs else "3.1"
